@@ -39,11 +39,30 @@ var hwISA = map[string]bool{
 	"": true, "CMOV": true, "SSE": cpu.X86.HasSSE2, "SSE2": cpu.X86.HasSSE2, "SSE3": cpu.X86.HasSSE3, "SSSE3": cpu.X86.HasSSSE3,
 	"SSE4.1": cpu.X86.HasSSE41, "SSE4.2": cpu.X86.HasSSE42, "AVX": cpu.X86.HasAVX, "AVX2": cpu.X86.HasAVX2, "FMA3": cpu.X86.HasFMA,
 	"BMI": cpu.X86.HasBMI1, "BMI2": cpu.X86.HasBMI2, "ADX": cpu.X86.HasADX, "AES": cpu.X86.HasAES, "PCLMULQDQ": cpu.X86.HasPCLMULQDQ,
-	"POPCNT": cpu.X86.HasPOPCNT, "LZCNT": cpu.X86.HasBMI1, "MOVBE": cpu.X86.HasAVX2,
+	"POPCNT": cpu.X86.HasPOPCNT, "LZCNT": procFlag("abm"), "MOVBE": procFlag("movbe"), "F16C": procFlag("f16c"), "SHA": procFlag("sha_ni"),
 	"AVX512F": cpu.X86.HasAVX512F, "AVX512VL": cpu.X86.HasAVX512VL, "AVX512BW": cpu.X86.HasAVX512BW, "AVX512DQ": cpu.X86.HasAVX512DQ,
 	"AVX512CD": cpu.X86.HasAVX512CD, "AVX512VBMI": cpu.X86.HasAVX512VBMI, "AVX512VBMI2": cpu.X86.HasAVX512VBMI2, "AVX512VNNI": cpu.X86.HasAVX512VNNI,
 	"AVX512IFMA": cpu.X86.HasAVX512IFMA, "AVX512BITALG": cpu.X86.HasAVX512BITALG, "AVX512VPOPCNTDQ": cpu.X86.HasAVX512VPOPCNTDQ,
 	"GFNI": cpu.X86.HasAVX512GFNI, "VAES": cpu.X86.HasAVX512VAES, "VPCLMULQDQ": cpu.X86.HasAVX512VPCLMULQDQ,
+}
+
+// procFlag reports a CPU feature flag from /proc/cpuinfo (for extensions x/sys/cpu does not expose)
+func procFlag(name string) bool {
+	b, err := os.ReadFile("/proc/cpuinfo")
+	if err != nil {
+		return false
+	}
+	for _, ln := range strings.Split(string(b), "\n") {
+		if strings.HasPrefix(ln, "flags") {
+			for _, f := range strings.Fields(ln) {
+				if f == name {
+					return true
+				}
+			}
+			return false
+		}
+	}
+	return false
 }
 
 // opcodes that cannot be run this way: control transfer, stack pointer, privileged, faulting on
@@ -68,8 +87,8 @@ func hwExcluded(op string) string {
 		return "reads MXCSR, which is not part of the modelled state"
 	case strings.Contains(op, "GATHER"), strings.Contains(op, "SCATTER"), op == "MASKMOVDQU", op == "MASKMOVOU", op == "VMASKMOVDQU", op == "XLAT":
 		return "implicit memory access"
-	case strings.HasPrefix(op, "VCVT") && strings.Contains(op, "PH"), strings.HasPrefix(op, "VP4"), strings.HasPrefix(op, "V4F"):
-		return "not attempted"
+	case strings.HasPrefix(op, "VP4"), strings.HasPrefix(op, "V4F"):
+		return "AVX512_4VNNIW/4FMAPS (multi-register operands)"
 	}
 	return ""
 }
